@@ -55,6 +55,13 @@ def extract(repo, failures):
                 failures.append("time: a modifier is not of the form \"%c\"")
         if not re.search(r"\+\s*2\s*\}", so):
             failures.append("time: split no longer skips 2 characters after the modifier")
+        # hits are collected in a std::map keyed by position and the cut is made at begin() (lowest position)
+        out["splitAtLowestIndex"] = bool(re.search(r"std::map<\s*size_t\s*,\s*std::string\s*>\s+found_format_modifiers", so)
+                                         and re.search(r"found_format_modifiers\.emplace\(\s*search\s*,\s*modifier\s*\)", so)
+                                         and len(re.findall(r"found_format_modifiers\.begin\(\)->first", so)) >= 3
+                                         and re.search(r"part_2\s*=\s*found_format_modifiers\.begin\(\)->second", so))
+        if not out["splitAtLowestIndex"]:
+            failures.append("time: _split_timestamp_format_once no longer cuts at the lowest hit of a position-keyed map")
     out["modifiers"] = mods
 
     # 2. where the fields are recorded
@@ -224,6 +231,7 @@ def extract(repo, failures):
         "(%s, %d, %s, %d)" % (lean_char(c), b, lean_char(f), w) for c, b, f, w, _ in table))
     L.append("/-- (modifier, argument of the patching `format_to`, blanks removed) -/")
     L.append("def patchArgs : List (Char × String) := [%s]" % ", ".join("(%s, %s)" % (lean_char(c), lean_str(a)) for c, _, _, _, a in table))
+    L.append("def splitAtLowestIndex : Bool := %s" % lean_bool(out.get("splitAtLowestIndex", False)))
     L.append("def rewriteTable : List (Char × String) := [%s]" % ", ".join("(%s, %s)" % (lean_char(c), lean_str(n)) for c, n in rewrites))
     L.append("def rejectedTable : List String := [%s]" % ", ".join(lean_str(r) for r in rejected))
     L.append("def localPeriod : Nat := %d" % period)
